@@ -726,7 +726,7 @@ func litOverhead(L int) int {
 	return 2 + (L-15)/255
 }
 
-var lateLs = []int{1024, 2048, 4096, 4400, 5000, 8192, 12000, 16384, 32768, 50000, 65535, 65536, 65537, 70000}
+var lateLs = []int{1024, 2048, 4096, 4400, 5000, 8192, 12000, 16384, 32768, 50000, 65535, 65536, 65537, 70000, 120000}
 
 // lateRest: candidate values of m+tail around the literal-run overhead of L, and a few absolute ones
 func lateRest(L int) []int {
@@ -813,7 +813,8 @@ func genShape(r *vh.Rng, maxN int, lens []int, Ls []int) (string, string) {
 		segs = append(segs, sg)
 		cls += c
 	}
-	return "cat:" + strings.Join(segs, ","), "concat-" + cls[:2]
+	_ = cls
+	return "cat:" + strings.Join(segs, ","), fmt.Sprintf("concat%d", k)
 }
 
 // embed writes `plain` (a request body made by a real builder around the value `blob` = expand(blobArg))
@@ -940,14 +941,17 @@ func main() {
 		out.Case(op, exec(op), "hyp/"+comp+"/"+cls, true)
 	}
 	// 0b. the lz4 wrapper seen by an independent reader (prefix + raw block), on shapes
-	for i := 0; i < 500*mult; i++ {
+	for i := 0; i < 1500*mult; i++ {
 		bodyArg, cls := genShape(r, shapeMax, lens, Ls)
 		op := "lz4rt " + bodyArg
 		out.Case(op, exec(op), "lz4rt/"+cls, true)
 	}
 	// 0c. shaped values through the real builders and the real reader
-	for i := 0; i < 400*mult; i++ {
+	for i := 0; i < 1200*mult; i++ {
 		blobArg, cls := genShape(r, shapeMax, lens, Ls)
+		if i%2 == 1 {
+			blobArg, cls = genLate(r, Ls)
+		}
 		kind := []string{"query", "execute", "batch", "auth"}[r.Intn(4)]
 		comp := compNames[1+r.Intn(2)]
 		if r.Intn(12) == 0 {
@@ -961,7 +965,7 @@ func main() {
 			out.Dist["skipped-build"]++
 			continue
 		}
-		out.Case(op, exec(op), fmt.Sprintf("rt-shape/%s/%s/%s", kind, comp, cls), true)
+		out.Case(op, exec(op), fmt.Sprintf("rt-shape/%s/%s", comp, cls), true)
 	}
 
 	// 1. every request kind x version x compressor x tracing/payload: real builders
